@@ -838,6 +838,10 @@ def job_invariants(job):
     from utils import get_max_case_in_piecewise
     res = {"id": job["id"], "kind": "invariants"}
     apply_settings(job.get("settings"))
+    if job.get("burn_names") is not None:
+        # an earlier part of the process history consumed this many generated names
+        import utils.identifiers as ident
+        ident._count_unique_var = int(job["burn_names"])
     if "text" in job:
         from inputparser import parse_program, GoalParser, MOMENT, CUMULANT, CENTRAL
         from inputparser import Parser
@@ -901,7 +905,82 @@ def job_invariants(job):
     return res
 
 
-JOBS = {"invariants": job_invariants, "session": job_session, "accepts": job_accepts, "analyze": job_analyze, "linrec": job_linrec, "explattice": job_explattice, "simulate": job_simulate}
+def job_dists(job):
+    """observations of Polar's distribution classes: moments, support, discreteness, transforms, samples"""
+    from program.distribution import distribution_factory
+    K = job.get("K", 6)
+    out = []
+    t = sympy.Symbol("t")
+    for item in job["dists"]:
+        o = {"did": item["did"]}
+        try:
+            d = distribution_factory(item["name"], list(item["params"]))
+        except Exception as ex:
+            o.update(exc=type(ex).__name__, msg=str(ex)[:200])
+            out.append(o)
+            continue
+        rows = []
+        for k in range(K + 1):
+            row = {}
+            signal.alarm(40)
+            try:
+                row["moment"] = frac_str(sympy.sympify(d.get_moment(k)))
+            except JobTimeout:
+                row["moment_exc"] = "timeout"
+            except Exception as ex:
+                row["moment_exc"] = f"{type(ex).__name__}: {str(ex)[:100]}"
+            finally:
+                signal.alarm(0)
+            rows.append(row)
+        if item.get("transforms", True):
+            for name, fn, fac in (("mgf", d.mgf, 1), ("cf", d.cf, sympy.I)):
+                signal.alarm(60)
+                try:
+                    expr = sympy.sympify(fn(t))
+                    ser = sympy.series(expr, t, 0, K + 1).removeO()
+                    for k in range(K + 1):
+                        c = sympy.simplify(ser.coeff(t, k) * sympy.factorial(k) / fac ** k)
+                        rows[k][name] = frac_str(c)
+                except JobTimeout:
+                    o[name + "_exc"] = "timeout"
+                except Exception as ex:
+                    o[name + "_exc"] = f"{type(ex).__name__}: {str(ex)[:100]}"
+                finally:
+                    signal.alarm(0)
+        o["rows"] = rows
+        try:
+            sup = d.get_support()
+            lo, hi = [], []
+            for s_ in sup:
+                a, b = (s_, s_) if not isinstance(s_, tuple) else s_
+                a, b = sympy.sympify(a), sympy.sympify(b)
+                lo.append("-inf" if a == -sympy.oo else frac_str(a))
+                hi.append("inf" if b == sympy.oo else frac_str(b))
+            # a reported support is the union of its pieces: its hull must contain the true support
+            o["support"] = {"lo": lo, "hi": hi}
+        except Exception as ex:
+            o["support_exc"] = f"{type(ex).__name__}: {str(ex)[:100]}"
+        o["discrete"] = bool(d.is_discrete())
+        o["mgf_at"] = []
+        for tv in item.get("mgf_points", ["-2", "-1/2", "0", "1/2", "1", "2", "3"]):
+            try:
+                o["mgf_at"].append([tv, bool(d.mgf_exists_at(sympy.Rational(tv)))])
+            except NotImplementedError:
+                break
+            except Exception as ex:
+                o["mgf_at"].append([tv, f"exc:{type(ex).__name__}"])
+        samples = []
+        try:
+            for _ in range(job.get("samples", 60)):
+                samples.append(float_frac(d.sample({})))
+        except Exception as ex:
+            o["sample_exc"] = f"{type(ex).__name__}: {str(ex)[:100]}"
+        o["samples"] = samples
+        out.append(o)
+    return {"id": job["id"], "dists": out}
+
+
+JOBS = {"dists": job_dists, "invariants": job_invariants, "session": job_session, "accepts": job_accepts, "analyze": job_analyze, "linrec": job_linrec, "explattice": job_explattice, "simulate": job_simulate}
 
 
 def handle(job):
